@@ -177,6 +177,17 @@ example : encIntColumn false ([some 5, none, some 5, some 9].map (Option.map Int
       .ok ([some 5, none, some 5, some 9], [false]) ∧
     encoderWidth false [some 5, some 5] = 2 ∧ encoderWidth true [some 5, some 5] = 0 := by decide
 
+/-- why `hw1` and `hne` are there: a 1-bit field cannot express an all-missing column (the all-ones
+    minimum of width 1 is read as the value 1), and the general path refuses an all-missing column
+    (the encoder never takes it for one: all-missing user values are all equal). -/
+example : (∃ bits, encIntColumn true ([none, none].map (Option.map Int.ofNat)) 1 = .ok bits ∧
+      readColumn 1 2 bits = .ok ([some 1, some 1], [])) ∧
+    encIntColumn false ([none, none].map (Option.map Int.ofNat)) 4 = .error .other ∧
+    -- a missing entry NEXT to a present one does round-trip in a 1-bit column
+    (∃ bits, encIntColumn false ([some 1, none].map (Option.map Int.ofNat)) 1 = .ok bits ∧
+      readColumn 1 2 bits = .ok ([some 1, none], [])) :=
+  ⟨⟨_, rfl, by decide⟩, by decide, ⟨_, rfl, by decide⟩⟩
+
 /-- The one column shape the encoder cannot write: a 63-bit (or 64-bit) field whose present entries
     span `2^63 − 2` or more needs an increment width of 64, which does not fit the 6-bit count
     (`write_uint(64, 6)` raises).  Decoding the spec column of width 63 works. -/
@@ -238,6 +249,21 @@ example : Spec.readColumnSpec 4 3 (Spec.intColumnBitsWith 1 [some 5, none, some 
       .ok ([some 5, none, some 5], [true]) ∧
     Spec.readColumnSpec 4 3 (Spec.intColumnBitsWith 3 [some 5, none, some 5] 4).dropLast = .error .bitRead ∧
     Spec.readColumnSpec 4 3 (ones 4 ++ toBits 6 2) = .error .other := by decide
+
+/-- Code/flag columns: the decoder checks every rebuilt entry against the FIELD's missing pattern
+    once more (`codeflagVal`); on a column of representable entries that re-check never fires, so a
+    code/flag column is delivered exactly like a numeric one (present -> the integer, missing ->
+    missing). -/
+theorem C05_codeflag_recheck_inert (w : Nat) (raws : List (Option Nat)) (hr : Spec.InRange w raws) :
+    raws.map (codeflagVal w) = raws.map uintVal := by
+  apply List.map_congr_left
+  intro r hr'
+  cases r with
+  | none => rfl
+  | some x =>
+    have h := (hr x hr').2
+    have : ¬ (1 < w ∧ x = 2 ^ w - 1) := fun ⟨a, b⟩ => by have := h a; omega
+    simp only [codeflagVal, this, if_false, uintVal]
 
 /-- Character columns: what the encoder writes for a column of `nbytes`-byte strings — any mix of
     equal, different and missing (`none`) entries, strings of any length (truncated or blank-padded
